@@ -14,16 +14,12 @@
 (* (send times, arrival times, exit time) so that exactly the same         *)
 (* definitions judge implementation traces in KeepaliveTrace.tla.          *)
 (***************************************************************************)
-EXTENDS Integers, Sequences, FiniteSets, TLC
+EXTENDS KeepaliveDefs
 
 CONSTANTS Is, Ts,      \* sets of interval / timeout values given to the options API (0 = disabled)
           MaxD,        \* largest pong delay
           Horizon      \* time bound of the exploration
 
-Never == -1
-
-(* what the options API must produce: timeout >= interval whenever both are set *)
-Clamp(i, t) == IF t = 0 THEN 0 ELSE IF i = 0 THEN t ELSE IF t < i THEN i ELSE t
 
 VARIABLES I, T,        \* effective interval / timeout (0 = disabled)
           now, nextTick, lastPong,
@@ -68,31 +64,12 @@ Pong ==
 Next == Tick \/ Pong
 Spec == Init /\ [][Next]_vars
 
-(* ------------------------------------------------------------------ *)
-(* The clauses of C16 over a history (shared with the trace spec)       *)
-(* ------------------------------------------------------------------ *)
-(* a Ping is sent every I: the k-th Ping is sent at (k-1)*I *)
-PingEveryI(i, s) == \A k \in 1 .. Len(s) : s[k] = (k - 1) * i
-(* no Ping when disabled *)
-DisabledSilent(i, s, ex) == i = 0 => Len(s) = 0 /\ ex = Never
-(* detection window: exit no earlier than T and no later than T + I after the last Pong (or start) *)
-ExitNotEarly(t, lp, ex) == ex # Never => t > 0 /\ ex - lp >= t
-NoLateExit(i, t, lp, ex, n) == (ex = Never /\ i > 0 /\ t > 0) => n - lp <= t + i
-(* no false timeout: at the moment of the exit some Ping is already known to be late, i.e. its
-   deadline s + T has been reached and its Pong has not been received (g = number of Pongs received
-   before the exit; events of one instant may be processed in either order)                     *)
-LateAt(t, s, a, g, k, at) == s[k] + t <= at /\ (k > g \/ a[k] = Never \/ a[k] > s[k] + t)
-NoFalseTimeout(t, s, a, g, ex) == ex # Never => \E k \in 1 .. Len(s) : LateAt(t, s, a, g, k, ex)
-(* the region in which the tick-based detector is known to raise false alarms (finding F12): some Pong
-   did not arrive strictly before the next tick *)
-SlowPong(i, s, a) == \E k \in 1 .. Len(s) : a[k] = Never \/ a[k] - s[k] >= i
-
 InvPing      == PingEveryI(I, sent)
 InvDisabled  == DisabledSilent(I, sent, exitAt)
 InvNotEarly  == ExitNotEarly(T, lastPong, exitAt)
 InvNotLate   == NoLateExit(I, T, lastPong, exitAt, now)
 InvNoFalse   == NoFalseTimeout(T, sent, arr, got, exitAt)
 (* what holds on the pinned design: false timeouts only when a Pong was slower than one interval *)
-InvNoFalseOutsideF12 == NoFalseTimeout(T, sent, arr, got, exitAt) \/ SlowPong(I, sent, arr)
+InvNoFalseOutsideF12 == NoFalseTimeout(T, sent, arr, got, exitAt) \/ F12Region(I, T)
 InvClamp     == (I > 0 /\ T > 0) => T >= I
 =============================================================================
